@@ -299,6 +299,8 @@ class ABIN(Command):
         ABIN n1 n2
         """
         super(ABIN, self).__init__(shx, spline)
+        self.n1 = None
+        self.n2 = None
         p, _ = self._parse_line(spline)
         if len(p) > 0:
             self.n1 = p[0]
@@ -340,6 +342,7 @@ class MPLA(Command):
         MPLA na atomnames
         """
         super(MPLA, self).__init__(shx, spline)
+        self.na = None
         p, self.atoms = self._parse_line(spline, intnums=True)
         if len(p) > 0:
             self.na = p[0]
@@ -741,6 +744,7 @@ class PRIG(Command):
         PRIG p[#]
         """
         super(PRIG, self).__init__(shx, spline)
+        self.p = None
         params, _ = self._parse_line(spline)
         if len(params) > 0:
             self.p = params[0]
@@ -873,6 +877,8 @@ class GRID(Command):
         GRID sl[#] sa[#] sd[#] dl[#] da[#] dd[#]
         """
         super(GRID, self).__init__(shx, spline)
+        self.sl, self.sa, self.sd = None, None, None
+        self.dl, self.da, self.dd = None, None, None
         params, _ = self._parse_line(spline)
         if len(params) > 0:
             self.sl = params[0]
